@@ -7,7 +7,9 @@ def generate():
     from frappy.params import Parameter, Command
     palways = [po.extname for pn, po in Parameter.propertyDict.items() if po.export == 'always']
     calways = [po.extname for pn, po in Command.propertyDict.items() if po.export == 'always']
+    import frappy.modulebase as mb
     return [
+        'def secopBaseClasses : List String := ' + llist(lstr(x) for x in mb.SECoP_BASE_CLASSES),
         'def paramAlways : List String := ' + llist(lstr(x) for x in palways),
         'def commandAlways : List String := ' + llist(lstr(x) for x in calways),
     ]
